@@ -30,10 +30,13 @@ def scripted_id_reuse(w, origin, victim_hops):
                         w.deliver(w.net.inflight[0].seq)
         for n in w.names:
             for c in known:
-                w.forge_destroy("adv", n, c)
-                w.deliver(w.net.inflight[-1].seq)
-                while w.net.inflight:
-                    w.deliver(w.net.inflight[0].seq)
+                # signed by the attacker's own key, sent from its own address and with the (spoofed) source address of
+                # every other node - among them the adjacent node of that entry
+                for src in ["adv"] + [m for m in w.names if m != n]:
+                    w.forge_destroy(src, n, c)
+                    w.deliver(w.net.inflight[-1].seq)
+                    while w.net.inflight:
+                        w.deliver(w.net.inflight[0].seq)
         if phase == 0:
             # keep the circuit alive (pings) until every CreatedRequestCache (60 s) is gone
             w.run_until(w.now_ms() + 70000)
